@@ -799,7 +799,7 @@ Outcome run_case(Case &c, const RunnerOpts &ro) {
             if (!last_fact_ok) { out.excl["op_skipped_no_valid_factors"]++; continue; }
         }
         for (int i = 0; i < 9; ++i) g_ienv[i] = op.ienv[i];
-        g_sig_suffix = std::string(stored_singular ? "@structurally_singular_pattern" : "") + (op.ienv[3] < op.ienv[2] ? "@maxsuper_lt_relax" : "");
+        g_sig_suffix = std::string(stored_singular ? "@structurally_singular_pattern" : "");   // (the class sp_ienv(3) < sp_ienv(2) had a tag until D14 was repaired)
         if (!g_sig_suffix.empty() && sim::result_fd >= 0) { std::string t = "T " + g_sig_suffix + "\n"; if (write(sim::result_fd, t.data(), t.size()) < 0) {} }
         if (op.ienv[3] < op.ienv[2]) out.probes["cfg_maxsuper_lt_relax"]++;
         if (op.x.sym_mode) { g_sig_suffix += "@symmetric_mode"; out.probes["cfg_symmetric_mode"]++; }
